@@ -32,4 +32,4 @@ def out(o):
 
 
 def to_judge_line(l):
-    return {"op": l["op"], "a": val(l["a"]), "b": val(l["b"]), "out": out(l["out"])}
+    return {"op": l["op"], "a": val(l["a"]), "b": val(l["b"]), "c": val(l.get("c", l["b"])), "out": out(l["out"])}
